@@ -269,11 +269,16 @@ async fn current_manifest_path(
     let manifest_files = object_store.list(Some(base.child(VERSIONS_DIR)));
 
     let mut valid_manifests = manifest_files.try_filter_map(|res| {
-        if let Some(scheme) = ManifestNamingScheme::detect_scheme(res.location.filename().unwrap())
-        {
-            future::ready(Ok(Some((scheme, res))))
-        } else {
-            future::ready(Ok(None))
+        let filename = res.location.filename().unwrap();
+        // Only names that carry an attached version are candidates. Detached manifests
+        // (`d<version>.manifest`), their staging files and foreign files are detected as
+        // some scheme but have no parsable version; they must be skipped here (as
+        // `current_manifest_local` and `list_manifests` do), not unwrapped below.
+        match ManifestNamingScheme::detect_scheme(filename) {
+            Some(scheme) if scheme.parse_version(filename).is_some() => {
+                future::ready(Ok(Some((scheme, res))))
+            }
+            _ => future::ready(Ok(None)),
         }
     });
 
